@@ -140,8 +140,9 @@ def check_c02(u):
     return errs
 
 
-def self_contained(n):
-    """Well-formedness of one netlist as a closed structure (reader/clone/transform outputs)."""
+def self_contained(n, strict_refsets=False):
+    """Well-formedness of one netlist as a closed structure (reader/clone/transform outputs).  With strict_refsets
+    (reader outputs) a reference set may only list children of the netlist's definitions and the top instance."""
     errs = []
     defs = set()
     libs = list(n.libraries)
@@ -218,6 +219,8 @@ def self_contained(n):
                     errs.append(("SC-stale-refset", _nm(d)))
                 if i.parent is not None and (i.parent.library is None or i.parent.library.netlist is not n):
                     errs.append(("SC-refset-foreign-instance", "%s referenced by %s of another netlist" % (_nm(d), _nm(i))))
+                if strict_refsets and i.parent is None and i is not n.top_instance:
+                    errs.append(("SC-refset-orphan-instance", "%s lists %s which is neither a child of a definition nor the top instance" % (_nm(d), _nm(i))))
     t = n.top_instance
     if t is not None:
         if t.reference is None or id(t.reference) not in defs:
